@@ -338,7 +338,12 @@ func extProdScenario(e epConfig) engine.Scenario {
 							sig = "C20/extprod/32bit/lazy-accumulator-overflow"
 						case pth == "multipleP" && mode == 0:
 						case !e.ntt && pth != "multipleP":
-							sig = "C20/extprod/nonNTT-input-treated-as-NTT"
+							// The 32-bit and single-P paths treat a coefficient-domain input as if it were in the NTT
+							// domain. Neither the property nor the doc comments define ExternalProduct for IsNTT=false
+							// inputs (RGSW is used in the NTT domain throughout the library), so this is counted as
+							// out of scope, not judged (coordinator's decision; observed behaviour kept in FINDINGS.md F6).
+							c.Cover("not-judged", "extprod-nonNTT-input-on-"+pth)
+							continue
 						case !e.ntt:
 							sig = "C20/extprod/nonNTT-input/" + pth + "/" + modeName
 						}
